@@ -291,6 +291,7 @@ def run(chk, ctx):
     c06.r3(chk, ctx, ctx.protocol(), ctx.mod("state_engine"))   # join state that lingers is ended again by the backstop
     from . import round3
     round3.record_receivers_readonly(chk, ctx)
+    round3.pending_marker_not_data(chk, ctx)    # a join that can never complete leaves the execution RUNNING for ever
     round3.terminated_range(chk, ctx)     # slots that were never launched must not be awaited: the lingering join state ends the execution twice
     chk.assume("engine-internal calls (change_state, handle_error, acknowledge, publish) do not raise; exception edges come from the may-raise table of sa/flow.py")
     chk.assume("loops run 0-or-more times; branch correlation only through the four idioms of DESIGN.md section 2")
